@@ -176,7 +176,7 @@ func runQueue(in QInput) (ob QObs, crash string) {
 	}
 	_ = budp
 	ob.BurstMs = time.Since(t0).Milliseconds()
-	ob.Ticks, crash = collect(rec, 0, in.Ticks, "")
+	ob.Ticks, crash = collect(rec, 0, 0, in.Ticks, "")
 	return ob, crash
 }
 
